@@ -25,6 +25,18 @@ sharing a classmethod, two partials of one function, two callable instances):
 Every call step is judged against the marks and the policy in force at that
 moment: allowed -> the callable runs and no SecurityError; forbidden -> zero
 invocations and SecurityError.
+
+Third part, *builtin-method policies*: an is_safe_callable override with an
+allow-list / deny-list / per-type ban over the methods of builtin values
+(str, list, dict, tuple, int, float).  The receiver is a context value or a
+LITERAL written in the template (bare, parenthesised, in constant expressions,
+aliased) and the arguments are constants, so the call is a candidate for
+compile-time evaluation.  A call the policy rejects must raise SecurityError
+exactly like the same call on a context variable.
+
+Callable kinds include callable OBJECTS whose __call__ is decorated with
+pass_context / pass_environment / pass_eval_context, marked on the instance
+or on the class: the safety check must see the object the template calls.
 """
 from __future__ import annotations
 
@@ -43,8 +55,19 @@ RULE = ("case = (obtain form x alias wrapper x call site x argument form x calla
         "sync/async x (mark, scope own/shared) x 7 step patterns) enumerated once with sampled "
         "reach-path templates, plus seeded random step sequences of length 2-6, each on one fresh "
         "environment; a history is distinct by its kind, environment, step list and the templates "
-        "used, and is counted only when its templates reach both unmarked sibling callables")
-LEVEL_TEXT = ("held on every reached case: 0 invocations of the marked callable and SecurityError "
+        "used, and is counted only when its templates reach both unmarked sibling callables; "
+        "callable kinds include callable objects with a pass_context/pass_environment/"
+        "pass_eval_context __call__ marked on the instance or the class; builtin-method policy "
+        "cases = (builtin method with constant arguments x receiver form [literal bare/parenthesised/"
+        "constant filter/constant inline-if/list element, set/loop/macro alias of a literal, context "
+        "variable/attribute/item/alias] x access [dot, subscript, |attr] x argument form [constant, "
+        "*list, *list+**dict] x call site x policy [allow-list, deny-list, type ban] x sync/async x "
+        "optimizer on/off): every (method, receiver, policy) at the print site and every (site, "
+        "method) once, plus seeded sampling; counted only when the same template with a context "
+        "variable written in place of the literal renders and consults the override for the method")
+LEVEL_TEXT = ("builtin-method policies: SecurityError on every reached call the override rejects, for "
+              "literal and context receivers alike; "
+              "held on every reached case: 0 invocations of the marked callable and SecurityError "
               "raised, over the composed grammar of reach paths (not exhaustive over all templates); "
               "on every enumerated/sampled multi-step history on one environment each call was allowed "
               "or refused according to the marks and policy in force at that step")
@@ -52,6 +75,7 @@ ASSUMPTIONS = [
     "callables are invoked by call syntax written in the template (or call blocks); engine-internal calls of data objects' protocol methods are out of scope",
     "marks: jinja2.sandbox.unsafe, alters_data=True, and an is_safe_callable override that rejects objects carrying vt_forbidden and defers to super() otherwise",
     "histories: the override additionally rejects objects (or bound receivers) carrying vt_frozen and objects whose vt_name is in the environment's deny-list; marks are set on and removed from the object the template calls (function, instance, partial, class) or the function/class shared by both siblings; the unsafe mark is removed by deleting the attribute(s) jinja2.sandbox.unsafe was observed to add",
+    "builtin-method policies: builtin methods cannot record their invocation, so the observation is the documented outcome (SecurityError from render) under a policy that rejects the method, given that the structural twin of the template (context variable in place of the literal) evaluates the call under a policy that admits it",
     "histories also require the reverse direction: once a mark or deny-list entry is removed the call must be let through again (reported under history-wrongly-blocked keys)",
 ]
 NSHARDS = {"quick": 16, "thorough": 16}
@@ -66,7 +90,10 @@ FLOORS = {
                            "history_verdict_flips_allow_to_block": 400,
                            "history_verdict_flips_block_to_allow": 240,
                            "history_one_render_steps": 220, "history_async_cases": 200,
-                           "history_override_env_cases": 230}},
+                           "history_override_env_cases": 230,
+                           "bm_cases": 400, "bm_security_errors": 400,
+                           "bm_literal_receiver_cases": 200, "bm_rejecting_consults": 400,
+                           "callable_object_pass_cases": 150}},
     "thorough": {"evaluations": 60000, "distinct": 30000,
                  "counters": {"twin_invocations": 30000, "marked_renders": 30000,
                               "security_errors": 30000, "async_cases": 8000,
@@ -76,7 +103,10 @@ FLOORS = {
                               "history_verdict_flips_allow_to_block": 7500,
                               "history_verdict_flips_block_to_allow": 2700,
                               "history_one_render_steps": 9500, "history_async_cases": 6500,
-                              "history_override_env_cases": 8000}},
+                              "history_override_env_cases": 8000,
+                              "bm_cases": 3000, "bm_security_errors": 3000,
+                              "bm_literal_receiver_cases": 1500, "bm_rejecting_consults": 3000,
+                              "callable_object_pass_cases": 1000}},
 }
 
 # ------------------------------------------------------------------ grammar
@@ -192,7 +222,11 @@ SITE_TEMPLATES = {
 ARGS = ["", "1", "1, k=2", "*[1, 2]", "**{'k': 1}", "1, *[2], **{'k': 3}"]
 KINDS = ["func", "lambda", "method", "classmethod", "staticmethod", "callable_obj",
          "callable_cls", "partial", "klass", "pass_context", "pass_environment",
-         "pass_eval_context", "async_func"]
+         "pass_eval_context", "async_func",
+         # callable OBJECTS whose __call__ takes the context / environment / eval
+         # context; the mark sits on the instance (cobj_*) or on the class (ccls_*)
+         "cobj_pass_context", "cobj_pass_environment", "cobj_pass_eval_context",
+         "ccls_pass_context", "ccls_pass_environment", "ccls_pass_eval_context"]
 MARKS = ["unsafe", "alters", "override"]
 ENVS = ["sandbox", "immutable", "override"]
 
@@ -267,6 +301,19 @@ def make_callable(kind, mark, rec):
                 return body(*a, **k)
         apply_mark(CC)
         f = CC()
+    elif kind.startswith(("cobj_pass_", "ccls_pass_")):
+        deco = {"pass_context": pass_context, "pass_environment": pass_environment,
+                "pass_eval_context": pass_eval_context}[kind[5:]]
+
+        class PO:
+            @deco
+            def __call__(self, passed, *a, **k):
+                return body(*a, **k)
+        if kind.startswith("ccls_"):
+            apply_mark(PO)
+            f = PO()
+        else:
+            f = apply_mark(PO())
     elif kind == "partial":
         f = apply_mark(functools.partial(body, 0))
     elif kind == "klass":
@@ -430,6 +477,8 @@ def run_case(ctx, case, count=True):
             ctx.count("async_cases")
         if case["env"] == "override":
             ctx.count("override_env_cases")
+        if case["kind"].startswith(("cobj_pass_", "ccls_pass_")):
+            ctx.count("callable_object_pass_cases")
         ctx.dist([case[k] for k in ("obtain", "wrap", "site", "args", "kind", "mark", "env", "async")])
     full = dict(case, source=source, templates=templates)
     mech = f"site={case['site']}:wrap={case['wrap']}:kind={case['kind']}:mark={case['mark']}"
@@ -499,7 +548,9 @@ def random_case(rng):
 # ---------------------------------------------------------------- histories
 HKINDS = ["func", "lambda", "method", "classmethod", "staticmethod", "callable_obj",
           "partial", "klass", "pass_context", "pass_environment", "pass_eval_context",
-          "async_func", "async_def"]
+          "async_func", "async_def",
+          "callable_obj_pass_context", "callable_obj_pass_environment",
+          "callable_obj_pass_eval_context"]
 ASYNC_ONLY = ("async_func", "async_def")
 SHARED_FUNC_KINDS = ("method", "classmethod", "staticmethod")
 # both siblings in one render; fa/oa = first, fb/ob = second
@@ -602,11 +653,21 @@ def make_family(kind, tag):
         fam.shared = sm
         for T in "AB":
             add(T, OS(), None, rec)
-    elif kind == "callable_obj":
-        class CO:
-            def __call__(self, *a, **k):
-                self.vt_rec.calls += 1
-                return Ret(1)
+    elif kind.startswith("callable_obj"):
+        if kind == "callable_obj":
+            class CO:
+                def __call__(self, *a, **k):
+                    self.vt_rec.calls += 1
+                    return Ret(1)
+        else:
+            deco = {"pass_context": pass_context, "pass_environment": pass_environment,
+                    "pass_eval_context": pass_eval_context}[kind[len("callable_obj_"):]]
+
+            class CO:
+                @deco
+                def __call__(self, passed, *a, **k):
+                    self.vt_rec.calls += 1
+                    return Ret(1)
         fam.shared = CO
         for T in "AB":
             inst = CO()
@@ -693,7 +754,7 @@ def changes_for(kind, envkind):
         out = [(m, "shared") for m in basic]
         if ov and kind != "staticmethod":
             out += [("freeze", "A"), ("freeze", "B")]
-    elif kind == "callable_obj":
+    elif kind.startswith("callable_obj"):
         out = [(m, T) for m in basic + (["freeze"] if ov else []) for T in "AB"]
         out += [(m, "shared") for m in ["unsafe", "alters"] + (["forbid"] if ov else [])]
     else:
@@ -1054,6 +1115,255 @@ def run_history(ctx, spec, count=True):
     return True
 
 
+# ------------------------------------------------- builtin-method policies
+# Third part: an application may override is_safe_callable with an allow-list
+# or deny-list over the methods of builtin types ("templates may call
+# str.lower but not str.format").  Builtin methods cannot record their own
+# invocation, so the observation is the documented outcome: a call the policy
+# rejects raises SecurityError.  The receiver is a context value OR a literal
+# written in the template (bare, parenthesised, inside constant expressions,
+# aliased): "exactly like the same call on a variable".  Whether a site
+# evaluates its call expression at all is established with the receiver taken
+# from the context under a policy that admits the method (is_safe_callable is
+# then consulted for that very method).
+BM_TYPES = (str, list, dict, tuple, int, float)
+BM_METHODS = [
+    # (type, literal text, method, constant arguments)
+    ("str", "'abc'", "upper", ""),
+    ("str", "'a,b'", "split", "','"),
+    ("str", "'{}-{}'", "format", "1, 2"),
+    ("str", "'abc'", "replace", "'a', 'b'"),
+    ("str", "' x '", "strip", ""),
+    ("str", "'-'", "join", "['x', 'y']"),
+    ("str", "'abc'", "startswith", "'a'"),
+    ("str", "'abc'", "encode", ""),
+    ("list", "[3, 1, 2]", "index", "1"),
+    ("list", "[3, 1]", "count", "1"),
+    ("list", "[1, 2]", "copy", ""),
+    ("dict", "{'a': 1}", "get", "'a'"),
+    ("dict", "{'a': 1}", "keys", ""),
+    ("dict", "{'a': 1}", "items", ""),
+    ("tuple", "(1, 2)", "index", "2"),
+    ("tuple", "(1, 2, 1)", "count", "1"),
+    ("int", "42", "bit_length", ""),
+    ("float", "1.5", "is_integer", ""),
+    ("float", "2.5", "hex", ""),
+]
+BM_NAMES = sorted({m[2] for m in BM_METHODS})
+BM_TYPENAMES = sorted({m[0] for m in BM_METHODS})
+# receiver forms: (wrapper with BODY, receiver expression); R = the literal
+# text, v = the context variable holding the equal value
+BM_RECV = {
+    "literal": ("BODY", "R"),
+    "literal_paren": ("BODY", "(R)"),
+    "literal_const_filter": ("BODY", "(R|default(0))"),
+    "literal_const_condexpr": ("BODY", "(R if true else 0)"),
+    "literal_in_list": ("BODY", "[R][0]"),
+    "set_alias_of_literal": ("{% set r = R %}BODY", "r"),
+    "loop_var_of_literal": ("{% for r in [R] %}BODY{% endfor %}", "r"),
+    "macro_param_of_literal": ("{% macro wm(r) %}BODY{% endmacro %}{{ wm(R) }}", "r"),
+    "context_var": ("BODY", "v"),
+    "context_attr": ("BODY", "h.v"),
+    "context_item": ("BODY", "c['v']"),
+    "set_alias_of_var": ("{% set r = v %}BODY", "r"),
+}
+BM_LITERAL_RECV = [k for k in BM_RECV if k.startswith("literal")]
+BM_ACCESS = {"dot": "X.M", "subscript": "X['M']", "attr_filter": "(X|attr('M'))"}
+BM_ARGFORMS = ["const", "star", "star_kw"]
+BM_POLICIES = ["allow_list", "deny_list", "deny_type"]
+
+_bm_envs = {}
+
+
+def bm_env(is_async, optimized):
+    import types
+
+    from jinja2.sandbox import SandboxedEnvironment
+
+    key = (is_async, optimized)
+    env = _bm_envs.get(key)
+    if env is None:
+        class PolicyEnv(SandboxedEnvironment):
+            """allow_list: of the methods of builtin-type values only those named in
+            vt_names may be called; deny_list: those named in vt_names may not;
+            deny_type: no method of a value whose type is named in vt_names."""
+            vt_policy = "allow_list"
+            vt_names = frozenset()
+
+            def is_safe_callable(self, obj):
+                recv = getattr(obj, "__self__", None)
+                if isinstance(obj, types.BuiltinMethodType) and isinstance(recv, BM_TYPES):
+                    name = obj.__name__
+                    self.vt_consulted.append(name)
+                    if self.vt_policy == "allow_list" and name not in self.vt_names:
+                        return False
+                    if self.vt_policy == "deny_list" and name in self.vt_names:
+                        return False
+                    if self.vt_policy == "deny_type" and type(recv).__name__ in self.vt_names:
+                        return False
+                return super().is_safe_callable(obj)
+
+        env = PolicyEnv(enable_async=is_async, extensions=["jinja2.ext.do"], cache_size=0,
+                        optimized=optimized)
+        env.vt_consulted = []
+        env.globals["ident"] = lambda x: x
+        _bm_envs[key] = env
+    return env
+
+
+def bm_names(policy, typ, method, admit):
+    """The policy's name set that admits / rejects exactly this method."""
+    if policy == "allow_list":
+        return frozenset(BM_NAMES) if admit else frozenset(n for n in BM_NAMES if n != method)
+    if policy == "deny_list":
+        return frozenset() if admit else frozenset([method])
+    return frozenset() if admit else frozenset([typ])
+
+
+def bm_compose(case, var_twin=False):
+    """var_twin: the same template with the context variable v written wherever
+    the literal stands (the structural twin whose receiver is not a literal)."""
+    typ, lit, method, cargs = BM_METHODS[case["method"]]
+    if var_twin:
+        lit = "v"
+    wrap, rexpr = BM_RECV[case["recv"]]
+    callee = BM_ACCESS[case["access"]].replace("X", rexpr).replace("M", method)
+    args = cargs
+    if case["argform"] != "const" and cargs:
+        args = f"*[{cargs}]" + (", **{}" if case["argform"] == "star_kw" else "")
+    elif case["argform"] == "star_kw":
+        args = "**{}"
+
+    def fill(text):
+        return (text.replace("@@", f"{callee}({args})").replace("^^", callee)
+                .replace("ARGS", args))
+    source = wrap.replace("BODY", fill(SITES[case["site"]])).replace("R", lit)
+    templates = {k: fill(v).replace("R", lit)
+                 for k, v in SITE_TEMPLATES.get(case["site"], {}).items()}
+    return source, templates
+
+
+def bm_render(case, source, templates, policy, names):
+    import ast
+
+    from jinja2 import DictLoader
+    from jinja2.exceptions import SecurityError
+
+    typ, lit, method, _ = BM_METHODS[case["method"]]
+    env = bm_env(case["async"], case.get("optimized", True))
+    env.loader = DictLoader(dict(templates))
+    env.vt_policy, env.vt_names = policy, names
+    env.vt_consulted = consulted = []
+    value = ast.literal_eval(lit)
+
+    class H:
+        pass
+    h = H()
+    h.v = value
+    try:
+        out = env.from_string(source).render(v=value, h=h, c={"v": value})
+        exc = None
+    except SecurityError as e:
+        out, exc = None, ("SecurityError", str(e)[:200])
+    except Exception as e:
+        out, exc = None, (type(e).__name__, str(e)[:200])
+    return out, exc, consulted
+
+
+_bm_reach = {}
+
+
+def bm_reached(case):
+    """Does this template evaluate its call expression?  Decided on its twin
+    with the receiver taken from the context (the variable v written in place
+    of the literal) and the method admitted: no exception and the override was
+    consulted for the method."""
+    key = json.dumps([case[k] for k in ("site", "method", "recv", "access", "argform", "async")]
+                     + [case.get("optimized", True)])
+    r = _bm_reach.get(key)
+    if r is None:
+        typ, lit, method, _ = BM_METHODS[case["method"]]
+        source, templates = bm_compose(case, var_twin=True)
+        out, exc, consulted = bm_render(case, source, templates, "allow_list",
+                                        bm_names("allow_list", typ, method, True))
+        r = _bm_reach[key] = exc is None and method in consulted
+    return r
+
+
+def run_bm_case(ctx, case, count=True):
+    typ, lit, method, _ = BM_METHODS[case["method"]]
+    if not bm_reached(case):
+        if count:
+            ctx.count("bm_unreached")
+        return False
+    source, templates = bm_compose(case)
+    policy = case["policy"]
+    out, exc, consulted = bm_render(case, source, templates, policy,
+                                    bm_names(policy, typ, method, True))
+    mout, mexc, mconsulted = bm_render(case, source, templates, policy,
+                                       bm_names(policy, typ, method, False))
+    literal = case["recv"] in BM_LITERAL_RECV
+    if count:
+        ctx.ev(2)
+        ctx.count("bm_cases")
+        ctx.count("bm_policy:" + policy)
+        ctx.count("bm_recv:" + case["recv"])
+        if literal:
+            ctx.count("bm_literal_receiver_cases")
+        if not case.get("optimized", True):
+            ctx.count("bm_unoptimized_cases")
+        if case["async"]:
+            ctx.count("bm_async_cases")
+        if exc is None:
+            ctx.count("bm_admitted_renders_ok")
+        if method in mconsulted:
+            ctx.count("bm_rejecting_consults")
+        ctx.dist(["bm"] + [case[k] for k in ("site", "method", "recv", "access", "argform",
+                                              "policy", "async")] + [case.get("optimized", True)])
+    full = dict(case, bm=True, source=source, templates=templates)
+    if mexc is None or mexc[0] != "SecurityError":
+        ctx.violation(f"builtin-method-policy-bypassed:recv={case['recv']}:type={typ}:"
+                      f"access={case['access']}:policy={policy}",
+                      f"is_safe_callable override ({policy}) rejects {typ}.{method} but {source!r} "
+                      f"{templates or ''} (async={case['async']}, optimized={case.get('optimized', True)}) "
+                      f"gave {mexc or mout!r} instead of SecurityError; the override was consulted for "
+                      f"{mconsulted}; the same template with a context variable in place of the "
+                      f"literal consults the override for {method}",
+                      full)
+    elif count:
+        ctx.count("bm_security_errors")
+    return True
+
+
+def bm_core_cases():
+    out = []
+    i = 0
+    recvs, accs = list(BM_RECV), list(BM_ACCESS)
+    for mi in range(len(BM_METHODS)):
+        for recv in recvs:
+            for policy in BM_POLICIES:
+                i += 1
+                out.append({"site": "print", "method": mi, "recv": recv, "access": accs[i % 3],
+                            "argform": BM_ARGFORMS[(i // 3) % 3], "policy": policy,
+                            "async": i % 5 == 0, "optimized": i % 4 != 3})
+    for site in SITES:
+        for mi in range(len(BM_METHODS)):
+            i += 1
+            out.append({"site": site, "method": mi, "recv": recvs[i % len(recvs)],
+                        "access": accs[(i // 2) % 3] if i % 2 else "dot",
+                        "argform": BM_ARGFORMS[(i // 3) % 3] if i % 3 == 0 else "const",
+                        "policy": BM_POLICIES[i % 3], "async": i % 5 == 0, "optimized": i % 4 != 3})
+    return out
+
+
+def bm_random_case(rng):
+    return {"site": rng.choice(list(SITES)), "method": rng.randrange(len(BM_METHODS)),
+            "recv": rng.choice(BM_LITERAL_RECV if rng.random() < 0.5 else list(BM_RECV)),
+            "access": rng.choice(list(BM_ACCESS)), "argform": rng.choice(BM_ARGFORMS),
+            "policy": rng.choice(BM_POLICIES), "async": rng.random() < 0.2,
+            "optimized": rng.random() < 0.75}
+
+
 def run(ctx):
     import warnings
 
@@ -1074,6 +1384,21 @@ def run(ctx):
             sampled += 1
             ctx.sample(dict(case, source=compose(case)[0]))
     ctx.count("base_cases", nbase)
+    # builtin-method policies (allow-list / deny-list overrides), literal and context receivers
+    nbm = 0
+    for i, case in enumerate(bm_core_cases()):
+        if not ctx.mine(i):
+            continue
+        if quick and case["site"] != "print" and (i // ctx.nshards) % 2 != ctx.seed % 2:
+            continue
+        if run_bm_case(ctx, case):
+            nbm += 1
+            if nbm == 1 and ctx.shard in (5, 6):
+                ctx.sample(dict(case, source=bm_compose(case)[0]))
+    rng = ctx.rng("bmrand")
+    for _ in range(40 if quick else 1500):
+        run_bm_case(ctx, bm_random_case(rng))
+    ctx.count("bm_core_cases", nbm)
     # histories: the enumerated (kind x env x change x pattern) core, then random ones
     hsampled = 0
     nh = 0
@@ -1121,5 +1446,7 @@ def replay(ctx, case):
     warnings.simplefilter("ignore")
     if case.get("hist"):
         run_history(ctx, case, count=False)
+    elif case.get("bm"):
+        run_bm_case(ctx, case, count=False)
     else:
         run_case(ctx, case, count=False)
